@@ -367,6 +367,13 @@ func (db *DB) Apply(o Op, obs *Obs) ([]Outcome, error) {
 		}
 		n.Colls[o.Coll] = nc
 		return []Outcome{{State: n}}, nil
+	case "insertTwice":
+		// one document object listed twice: the second occurrence carries the id of the first (given or generated),
+		// so the batch is refused as a whole
+		if coll == nil {
+			return same(ECollNotExist), nil
+		}
+		return same(EDupKey, EAny), nil
 	case "insert", "insertOne":
 		return db.applyInsert(o, obs, false)
 	case "save", "saveStruct":
